@@ -5,15 +5,17 @@ LEVEL = "proof"
 LEVEL_TEXT = ("proved for the free-text searchers: every find_domains node carries the text it covers, which lies in [A-Za-z0-9.-]+ (language inclusion from the real DOMAIN_RE), "
               "is at least seven bytes long and is a non-empty name, a dot and a member of the real TOP_LEVEL_DOMAINS table (is_domain proved equivalent to that statement); every "
               "find_emails node is local-part@rest (inclusion from EMAIL_RE) and carries its text; every find_ips node is a canonical quad identical to the text it covers "
-              "(under the assumed contract relating ipaddress.IPv4Address and socket.inet_aton); types and empty labels are pinned. URL nodes and indicators produced inside "
+              "(under the assumed contract relating ipaddress.IPv4Address and socket.inet_aton); types and empty labels are pinned. every find_urls node has type network.url, label '' or escape.percent, a value urlsplit accepts with "
+              "scheme http / https / ftp and a non-empty authority (is_url proved to imply that of the very text that is parsed). URL values (percent-normalisation) and indicators produced inside "
               "URL / path nodes are covered by the bounded stand-in only: every network.ip / domain / email / url node met while scanning generated indicator-rich inputs with the default registry, "
               "and every URL node of the URL grammar, is checked against the clauses of the property (canonical quad equal to its text in free text, name + dot + registered "
               "TLD, LDH and length >= 7 in free text, local@domain, scheme and host, value = percent-normalised text, label iff shortened)")
 LEVEL_NOTE = ("ASSUMED: is_ip(text) iff text is a canonical dotted quad, and parse_ip of a canonical quad returns it unchanged without label (ipaddress / socket); membership in the "
-              "1488-entry TLD table is an uninterpreted predicate shared by code and specification; find_urls / normalize_percent_encoding / parse_authority are not under contract")
+              "1488-entry TLD table is an uninterpreted predicate shared by code and specification; normalize_percent_encoding carries an ASSUMED contract (re.sub callback)")
 DESIGN_REF = "DESIGN.md 6 (C10)"
 TECHNIQUE = "contract-based deductive verification of the free-text searchers (pyvc, z3 regular-language inclusions) + bounded run-time contracts for URL nodes"
-FUNCTIONS = ["multidecoder.decoders.network.is_domain", "multidecoder.decoders.network.find_domains", "multidecoder.decoders.network.find_emails", "multidecoder.decoders.network.find_ips"]
+FUNCTIONS = ["multidecoder.decoders.network.is_domain", "multidecoder.decoders.network.find_domains", "multidecoder.decoders.network.find_emails", "multidecoder.decoders.network.find_ips",
+             "multidecoder.decoders.network.is_url", "multidecoder.decoders.network.find_urls"]
 RULE = "evaluations = network.* nodes checked; distinct = distinct (node type, parent type) pairs met plus distinct URLs compared"
 EXPLANATION = "bounded stand-in"
 BOUNDED = [NO.bounded_indicator_nodes, NO.bounded_url_parts]
